@@ -876,7 +876,7 @@ func main() {
 	// ---- emit
 	var b strings.Builder
 	b.WriteString("(* GENERATED by harness/cmd/gen_c26 from the Go source of /repo on every bin/check run.\n   Do not edit: the file is overwritten. *)\n")
-	b.WriteString("From Coq Require Import List String NArith.\nImport ListNotations.\nOpen Scope string_scope.\nOpen Scope N_scope.\n\n")
+	b.WriteString("From Coq Require Import List String NArith.\nImport ListNotations.\nLocal Open Scope string_scope.\nLocal Open Scope N_scope.\n\n")
 
 	b.WriteString("(* internal/utils/apimethod *)\nInductive api_method :=\n")
 	for _, m := range methods {
@@ -920,7 +920,7 @@ func main() {
 	for _, r := range relations {
 		fmt.Fprintf(&b, "  | R_%s => %s\n", r.name, coqBytes(r.val))
 	}
-	b.WriteString("  end.\n\n(* (*Authorizer).getRelation: the switch, clause by clause; None = the default clause (error) *)\nDefinition relation_of (m : api_method) : option relation :=\n  match m with\n")
+	b.WriteString("  end.\n\n(* Authorizer.getRelation: the switch, clause by clause; None = the default clause (error) *)\nDefinition relation_of (m : api_method) : option relation :=\n  match m with\n")
 	for _, m := range methods {
 		if r, ok := relOf[m.name]; ok {
 			fmt.Fprintf(&b, "  | M_%s => Some R_%s\n", m.name, r)
@@ -938,7 +938,7 @@ func main() {
 		fmt.Fprintf(&b, "Definition const_%s : string := %s.\n", k, coqStr(v))
 	}
 
-	b.WriteString("\n(* pkg/server/*.go: RPC handlers of *Server *)\nInductive c26_call :=\n| CValidate\n| CAuthz (method store_arg : string) (guarded : bool)\n| CWriteAuthz (guarded : bool)\n| CCreateStoreAuthz (guarded : bool)\n| CAccessibleStores (guarded : bool)\n| CResolveModel\n| CData (what : string)\n| CDelegate (handler : string) (guarded : bool)\n| CUnknown (what : string).\n\n")
+	b.WriteString("\n(* pkg/server: RPC handlers of Server *)\nInductive c26_call :=\n| CValidate\n| CAuthz (method store_arg : string) (guarded : bool)\n| CWriteAuthz (guarded : bool)\n| CCreateStoreAuthz (guarded : bool)\n| CAccessibleStores (guarded : bool)\n| CResolveModel\n| CData (what : string)\n| CDelegate (handler : string) (guarded : bool)\n| CUnknown (what : string).\n\n")
 	b.WriteString("Record c26_handler := mkC26Handler { h_name : string; h_file : string; h_store_scoped : bool; h_calls : list c26_call }.\n\n")
 	b.WriteString("Definition c26_handlers : list c26_handler :=\n  [")
 	for i, h := range hs {
